@@ -35,9 +35,37 @@ def sqrtTail (u v t : Nat) : List Nat :=
   let r := sel (fisNeg r1) r1 (Fp.neg r1)
   [r, r, bor ok fl]
 
-/-- the regenerated program is this body around the regenerated `pow_p58` -/
+/-- the same body with the operands of its two ORs in either order (the proof below does not care which one the code uses) -/
+def sqrtTailV (f1 f2 : Bool) (u v t : Nat) : List Nat :=
+  let r0 := Fp.mul u t
+  let c := Fp.mul (Fp.sq r0) v
+  let nu := Fp.neg u
+  let nui := Fp.mul nu sqrtM1c
+  let ok := feq c u
+  let fl := feq c nu
+  let fi := feq c nui
+  let r1 := sel (if f1 then bor fi fl else bor fl fi) r0 (Fp.mul r0 sqrtM1c)
+  let r := sel (fisNeg r1) r1 (Fp.neg r1)
+  [r, r, if f2 then bor fl ok else bor ok fl]
+
+theorem bor_comm (a b : Nat) : bor a b = bor b a := Nat.or_comm a b
+
+theorem sqrtTailV_eq (f1 f2 : Bool) (u v t : Nat) : sqrtTailV f1 f2 u v t = sqrtTail u v t := by
+  unfold sqrtTailV sqrtTail
+  cases f1 <;> cases f2 <;> simp only [Bool.false_eq_true, if_false, if_true, bor_comm (feq _ (Fp.mul (Fp.neg u) sqrtM1c)),
+    bor_comm (feq _ (Fp.neg u)) (feq _ u)]
+
+/-- the regenerated program is this body around the regenerated `pow_p58` (by `rfl`, for some order of the OR operands) -/
 theorem SqrtRatioI_decomp (u v : Nat) :
-    SqrtRatioI_sh u v = sqrtTail u v ((pow_p58_sh (Fp.mul u v)).getD 0 0) := rfl
+    SqrtRatioI_sh u v = sqrtTail u v ((pow_p58_sh (Fp.mul u v)).getD 0 0) := by
+  have h : ∃ f1 f2, SqrtRatioI_sh u v = sqrtTailV f1 f2 u v ((pow_p58_sh (Fp.mul u v)).getD 0 0) := by
+    first
+    | exact ⟨false, false, rfl⟩
+    | exact ⟨true, false, rfl⟩
+    | exact ⟨false, true, rfl⟩
+    | exact ⟨true, true, rfl⟩
+  obtain ⟨f1, f2, h⟩ := h
+  rw [h, sqrtTailV_eq]
 
 theorem feq_eq_one_iff (a b : Nat) : feq a b = 1 ↔ toZ a = toZ b := by
   unfold feq; rw [toZ_eq_iff]; split <;> simp_all
